@@ -193,3 +193,25 @@ Fixpoint mon10_history (max_resp : nat) (r : rstate) (seen : list (bool * N)) (i
 Definition mon_c10 (c : nat * bool * list (uop * uout)) : N :=
   let '(max_resp, _, h) := c in
   (match mon10_history max_resp rinit [] 0%N h with None => 0 | Some i => N.succ i end * 4)%N.
+
+(* ---- C11 on the http storage: after a cleaning pass under an access list the torrents kept are
+   exactly the permitted ones that still have a peer (HOClean reports the torrent counts) ---- *)
+Fixpoint hmon11_history (mp ms : nat) (r : rstate) (seen : list (bool * N)) (i : N) (h : list (hop * hout)) : option N :=
+  match h with
+  | [] => None
+  | (op, out) :: rest =>
+      let r' := fst (hr_step r op) in
+      let seen' := match op with HAnnounce v6 hh _ _ _ _ _ _ _ => add_seen (v6, hh) seen | _ => seen end in
+      let ok :=
+        hmon_op 1%N mp ms r op out
+        && match op, out with
+           | HClean _ _ _, HOClean t4 t6 =>
+               Nat.eqb t4 (fst (stored_total r' seen' false)) && Nat.eqb t6 (fst (stored_total r' seen' true))
+           | _, _ => true
+           end in
+      if ok then hmon11_history mp ms r' seen' (N.succ i) rest else Some i
+  end.
+
+Definition mon_c11_http (c : nat * nat * list (hop * hout)) : N :=
+  let '(mp, ms, h) := c in
+  (match hmon11_history mp ms rinit [] 0%N h with None => 0 | Some i => N.succ i end * 4)%N.
